@@ -558,6 +558,17 @@ func checkC12(c *Check) {
 			} else if rg, ok := n.Iter.(*ssa.Range); !ok || !vField(vParam(nm, 0), "leaves")(rg.X) {
 				okKV = false
 			}
+			if !okKV && vParam(nm, 1)(store.Key) {
+				// leaf, ok := r.leaves[m] on the ok edge (a fixed order of methods instead of the map's order)
+				if e, ok := strip(store.Value).(*ssa.Extract); ok && e.Index == 0 {
+					if l, ok := e.Tuple.(*ssa.Lookup); ok && l.CommaOk && vField(vParam(nm, 0), "leaves")(l.X) {
+						present := edgesWhere(nm, cBool(vExtract(1, vIs(l))), true)
+						if g, _ := guardedBy(nm, present, isInstr(store)); g && len(present) > 0 {
+							okKV = true
+						}
+					}
+				}
+			}
 			c.Cond(okKV, k+":store", p.Pos(store.Pos()), "namedRoutes[name] = a leaf of this route", "Name() stores something other than one of the route's own leaves under the given name")
 		}
 	} else {
